@@ -22,7 +22,7 @@ def groups(tier):
     gs = []
     for ka in range(1, K + 1):
         for kb in range(1, K + 1):
-            gs.append({'name': 'rank-%dx%d' % (ka, kb), 'fn': rank_group, 'args': {'ka': ka, 'kb': kb}})
+            gs.append({'name': 'rank-%dx%d' % (ka, kb), 'fn': rank_group, 'rank_fallback': True, 'args': {'ka': ka, 'kb': kb}})
     for ka in range(1, K + 1):
         for kb in range(1, K + 1):
             gs.append({'name': 'pre-hybrid-%dx%d' % (ka, kb), 'fn': pre_group, 'args': {'ka': ka, 'kb': kb, 'L': 1, 'hybrid': True}})
@@ -61,8 +61,8 @@ def judge_pointwise(case, sat_level=False):
     return prog, judge
 
 
-def rank_group(s, ka, kb):
-    h = s.harness(L=1, cap_bs=max(ka * kb, 1), rank_bits=bits_for(2 * (ka + kb) + 1))
+def rank_group(s, ka, kb, hybrid=False):
+    h = s.harness(L=1, cap_bs=max(ka * kb, 1), rank_bits=bits_for(2 * (ka + kb) + 1), hybrid=hybrid, field_bits=(3 if hybrid else 0))
     A, Abs = h.range_('A', ka, allow_any=True)
     B, Bbs = h.range_('B', kb, allow_any=True)
     v = h.version('v')
